@@ -11,19 +11,27 @@ a435  == <<Q(4, 5), Q(3, 5)>>
 a3m45 == <<Q(3, 5), Q(-4, 5)>>
 One1(m) == << Op("Rgate", <<a345>>, <<m>>), OpH("Rgate", <<a345>>, <<m>>), Op("Rgate", <<a3m45>>, <<m>>),
               Op("Sgate", <<Q(4, 3), A0>>, <<m>>), Op("Xgate", <<Q(1, 2)>>, <<m>>), Op("Kgate", <<Z(1)>>, <<m>>),
-              OpH("Kgate", <<Z(1)>>, <<m>>),
-              \* two amounts that agree to four significant digits -- different programs all the same
-              Op("Xgate", <<Q(10001, 1000)>>, <<m>>), Op("Xgate", <<Q(10004, 1000)>>, <<m>>),
-              \* measurements <<angle, select, has_select>>: the same quadrature without and with (two different) post-selection values
-              Op("MeasureHomodyne", <<A0, Zero, Zero>>, <<m>>), Op("MeasureHomodyne", <<A0, Q(1, 2), One>>, <<m>>),
-              Op("MeasureHomodyne", <<A0, Q(-1, 4), One>>, <<m>>), Op("MeasureHomodyne", <<APi2, Zero, Zero>>, <<m>>) >>
+              OpH("Kgate", <<Z(1)>>, <<m>>) >>
+\* further commands, used in circuits of one command and next to one fixed companion (the pool of all pairs would be too large):
+\* two amounts that agree to four significant digits -- different programs all the same --, measurements <<angle, select,
+\* has_select>> of the same quadrature without and with (two different) post-selection values
+Extra1(m) == << Op("Xgate", <<Q(10001, 1000)>>, <<m>>), Op("Xgate", <<Q(10004, 1000)>>, <<m>>),
+                Op("MeasureHomodyne", <<A0, Zero, Zero>>, <<m>>), Op("MeasureHomodyne", <<A0, Q(1, 2), One>>, <<m>>),
+                Op("MeasureHomodyne", <<A0, Q(-1, 4), One>>, <<m>>), Op("MeasureHomodyne", <<APi2, Zero, Zero>>, <<m>>) >>
 Two1(a, b) == << Op("BSgate", <<a345, A0>>, <<a, b>>), Op("CXgate", <<One>>, <<a, b>>), Op("MZgate", <<a345, a435>>, <<a, b>>),
                  Op("S2gate", <<Q(4, 3), A0>>, <<a, b>>), Op("CZgate", <<One>>, <<a, b>>) >>
 RECURSIVE CatM(_, _)
 CatM(F(_), n) == IF n = 0 THEN << >> ELSE CatM(F, n - 1) \o F(n - 1)
+\* operations with a matrix argument (two different unitaries)
+USwap == << <<<<Zero, Zero>>, <<One, Zero>>>>, <<<<One, Zero>>, <<Zero, Zero>>>> >>
+UPhase == << <<<<One, Zero>>, <<Zero, Zero>>>>, <<<<Zero, Zero>>, <<Zero, One>>>> >>
+Mat2 == << Op("Interferometer", <<USwap>>, <<0, 1>>), Op("Interferometer", <<UPhase>>, <<0, 1>>), Op("Interferometer", <<USwap>>, <<1, 0>>) >>
 Alphabet == CatM(One1, NMod) \o Two1(0, 1) \o Two1(1, 0) \o << OpH("BSgate", <<a345, A0>>, <<0, 1>>), OpH("CXgate", <<One>>, <<0, 1>>) >>
             \o (IF NMod >= 3 THEN Two1(1, 2) \o Two1(0, 2) ELSE << >>)
-Init == \E n \in 0 .. Len0 : \E f \in [1 .. n -> 1 .. Len(Alphabet)] : circ = [i \in 1 .. n |-> Alphabet[f[i]]]
+Extras   == CatM(Extra1, NMod) \o Mat2
+Companion == Op("Sgate", <<Q(4, 3), A0>>, <<0>>)
+Init == \/ \E n \in 0 .. Len0 : \E f \in [1 .. n -> 1 .. Len(Alphabet)] : circ = [i \in 1 .. n |-> Alphabet[f[i]]]
+        \/ \E k \in 1 .. Len(Extras) : circ \in {<<Extras[k]>>, <<Companion, Extras[k]>>, <<Extras[k], Companion>>}
 Next == UNCHANGED circ
 Spec == Init /\ [][Next]_circ
 EmitInv == PrintT(ToJson([circ |-> circ, n |-> NMod]))
